@@ -653,3 +653,46 @@ def replay(path: str) -> Dict[str, Any]:
     viol, drift = _assess([res], verdicts)
     return {"level": "model_checking", "coverage": {}, "violations": [v for v in viol if v["signature"] == rp["signature"]] or viol,
             "notes": ["drift on replay"] if drift else []}
+
+
+# ------------------------------------------------------------------------------------------------------------------
+# the control side (spec/LoggerCtl.tla, vf/props/c17ctl.py): whole DataLogger.run() behaviours - recordings started, paused,
+# resumed, stopped, restarted, ended by errors / reset / exit - judged on the files of every recording
+# ------------------------------------------------------------------------------------------------------------------
+_run17 = run
+_replay17 = replay
+
+
+def run(tier: str, seed: int) -> Dict[str, Any]:  # noqa: F811
+    from . import c17ctl
+    res = _run17(tier, seed)
+    ctl = c17ctl.run_ctl(tier, seed)
+    seen = set()
+    for sig, detail, beh in ctl["violations"]:
+        if sig not in seen:
+            seen.add(sig)
+            res["violations"].append({"signature": sig, "replay": {"kind": "ctl", "behaviour": beh, "detail": detail}})
+    cov = res["coverage"]
+    cov["states"] = cov.get("states", 0) + (ctl["mc"].get("distinct") or 0)
+    cov["transitions"] = cov.get("transitions", 0) + (ctl["mc"].get("states") or 0)
+    cov["traces_validated_against_impl"] = cov.get("traces_validated_against_impl", 0) + ctl["behaviours"]
+    cov["logger_control_behaviours_replayed"] = ctl["behaviours"]
+    cov["explanation"] = cov.get("explanation", "") + ("; LoggerCtl.tla (control state machine of DataLogger.run(): start / stop / pause / resume / reset / "
+                                                        "reconfiguration / error path / exit) model checked and its behaviours replayed on the real DataLogger with "
+                                                        "real collections and files: the files of every recording hold exactly the messages delivered while recording")
+    if ctl["drift"]:
+        kinds = sorted({s for s, _, _ in ctl["drift"]})
+        res["notes"].append(f"logger control protocol (LoggerCtl.tla, outside the listed properties): {len(ctl['drift'])} difference(s): {kinds[:6]}")
+    return res
+
+
+def replay(path: str) -> Dict[str, Any]:  # noqa: F811
+    rp = json.load(open(path))
+    if rp.get("kind") == "ctl":
+        from .. import loggerctl_drv as drv
+        with engine.Quiet():
+            r = drv.replay(rp["behaviour"])
+        for sig, detail in r["verdicts"]:
+            engine.say(f"replay: {sig}: {detail[:300]}")
+        return {"level": "model_checking", "coverage": {}, "violations": [{"signature": s, "replay": rp} for s, _ in r["verdicts"] if s.startswith("C17/")]}
+    return _replay17(path)
